@@ -192,7 +192,89 @@ Section Oracles.
 
   Variable s : schema.
 
+  (* ---------------------------------------------------------------- sequencing helpers *)
+
+  Definition rmap {A B} (g : A -> B) (r : result A) : result B :=
+    match r with
+    | Good a => Good (g a)
+    | Invalid => Invalid
+    | Crash => Crash
+    | Fuel => Fuel
+    end.
+
+  (* items / fields are processed in order; the first failure is the result *)
+  Fixpoint seq_list {A B} (c : A -> result B) (l : list A) : result (list B) :=
+    match l with
+    | [] => Good []
+    | x :: r =>
+        match c x with
+        | Good y => rmap (cons y) (seq_list c r)
+        | Invalid => Invalid
+        | Crash => Crash
+        | Fuel => Fuel
+        end
+    end.
+
+  Definition add_entry (fd : field) (o : option pyval) (out : list (text * pyval)) :=
+    match o with
+    | Some y => (f_name fd, y) :: out
+    | None => out
+    end.
+
+  Fixpoint seq_fields (step : field -> result (option pyval)) (fds : list field)
+    : result (list (text * pyval)) :=
+    match fds with
+    | [] => Good []
+    | fd :: r =>
+        match step fd with
+        | Good o => rmap (add_entry fd o) (seq_fields step r)
+        | Invalid => Invalid
+        | Crash => Crash
+        | Fuel => Fuel
+        end
+    end.
+
+  (* coerce_default_value of a default given as a literal: an invalid default is a TypeError *)
+  Definition default_step (cd : ityp -> lit -> result pyval) (fd : field) : result (option pyval) :=
+    match f_default fd with
+    | None => Good None
+    | Some dl =>
+        match cd (f_type fd) dl with
+        | Good y => Good (Some y)
+        | Invalid => Crash
+        | Crash => Crash
+        | Fuel => Fuel
+        end
+    end.
+
+  Definition oapp {A} (a b : option (list A)) : option (list A) :=
+    match a, b with
+    | Some x, Some y => Some (x ++ y)
+    | _, _ => None
+    end.
+
+  Fixpoint vseq {A} (vf : nat -> A -> option (list path)) (i : nat) (l : list A)
+    : option (list path) :=
+    match l with
+    | [] => Some []
+    | x :: r => oapp (vf i x) (vseq vf (S i) r)
+    end.
+
+  Fixpoint vfields (step : field -> option (list path)) (fds : list field) : option (list path) :=
+    match fds with
+    | [] => Some []
+    | fd :: r => oapp (step fd) (vfields step r)
+    end.
+
+  Definition is_good {A} (r : result A) : bool := match r with Good _ => true | _ => false end.
+
   (* ---------------------------------------------------------------- coerce_input_literal *)
+
+  Definition var_missing (vars : env) (l : lit) : bool :=
+    match l with LVar n => is_undef (lookup_var n vars) | _ => false end.
+
+  Definition var_nullish (vars : env) (l : lit) : bool :=
+    match l with LVar n => is_null (lookup_var n vars) | _ => false end.
 
   (* after the fields loop of a OneOf object: exactly one node, exactly one coerced entry, that
      node not the null literal and its entry not None *)
@@ -206,11 +288,32 @@ Section Oracles.
     | _, _ => false
     end.
 
-  Definition var_missing (vars : env) (l : lit) : bool :=
-    match l with LVar n => is_undef (lookup_var n vars) | _ => false end.
+  (* a list item: a missing/null variable in a nullable position becomes None *)
+  Definition lit_item (c : lit -> result pyval) (vars : env) (it : ityp) (x : lit) : result pyval :=
+    match c x with
+    | Invalid => if negb (is_nonnull it) && var_nullish vars x then Good PNone else Invalid
+    | r => r
+    end.
 
-  Definition var_nullish (vars : env) (l : lit) : bool :=
-    match l with LVar n => is_null (lookup_var n vars) | _ => false end.
+  Definition lit_step (c : ityp -> lit -> result pyval) (cd : ityp -> lit -> result pyval)
+      (vars : env) (fs : list (text * lit)) (fd : field) : result (option pyval) :=
+    match lit_get (f_name fd) fs with
+    | None => if required fd then Invalid else default_step cd fd
+    | Some node =>
+        if var_missing vars node then
+          if required fd then Invalid else default_step cd fd
+        else rmap Some (c (f_type fd) node)
+    end.
+
+  Definition coerce_obj_lit (c cd : ityp -> lit -> result pyval) (vars : env)
+      (oneof : bool) (fds : list field) (fs : list (text * lit)) : result pyval :=
+    if existsb (fun k => negb (known k fds)) (node_names fs) then Invalid else
+    match seq_fields (lit_step c cd vars fs) fds with
+    | Good kvs => if oneof && negb (oneof_lit_ok fs kvs) then Invalid else Good (PDict kvs)
+    | Invalid => Invalid
+    | Crash => Crash
+    | Fuel => Fuel
+    end.
 
   Fixpoint coerce_lit (fuel : nat) (vars : env) (t : ityp) (l : lit) {struct fuel} : result pyval :=
     match fuel with
@@ -226,29 +329,8 @@ Section Oracles.
         | TList it =>
             if is_lnull l then Good PNone else
             match l with
-            | LList items =>
-                (fix go (items : list lit) : result pyval :=
-                   match items with
-                   | [] => Good (PList [])
-                   | x :: r =>
-                       let cont (y : pyval) :=
-                         match go r with
-                         | Good (PList ys) => Good (PList (y :: ys))
-                         | e => e
-                         end in
-                       match coerce_lit f vars it x with
-                       | Good y => cont y
-                       | Invalid =>
-                           if negb (is_nonnull it) && var_nullish vars x then cont PNone else Invalid
-                       | Crash => Crash
-                       | Fuel => Fuel
-                       end
-                   end) items
-            | _ =>
-                match coerce_lit f vars it l with
-                | Good y => Good (PList [y])
-                | e => e
-                end
+            | LList items => rmap PList (seq_list (lit_item (coerce_lit f vars it) vars it) items)
+            | _ => rmap (fun y => PList [y]) (coerce_lit f vars it l)
             end
         | TNamed n =>
             if is_lnull l then Good PNone else
@@ -256,57 +338,7 @@ Section Oracles.
             | None => Crash
             | Some (DInput oneof fds) =>
                 match l with
-                | LObject fs =>
-                    if existsb (fun k => negb (known k fds)) (node_names fs) then Invalid else
-                    match
-                      (fix go (fds : list field) : result (list (text * pyval)) :=
-                         match fds with
-                         | [] => Good []
-                         | fd :: r =>
-                             let cont (o : option pyval) :=
-                               match go r with
-                               | Good kvs => Good (match o with
-                                                   | Some y => (f_name fd, y) :: kvs
-                                                   | None => kvs
-                                                   end)
-                               | e => e
-                               end in
-                             let absent :=
-                               match lit_get (f_name fd) fs with
-                               | None => true
-                               | Some node => var_missing vars node
-                               end in
-                             if absent then
-                               if required fd then Invalid else
-                               match f_default fd with
-                               | None => cont None
-                               | Some dl =>
-                                   match coerce_lit f [] (f_type fd) dl with
-                                   | Good y => cont (Some y)
-                                   | Invalid => Crash       (* TypeError of coerce_default_value *)
-                                   | Crash => Crash
-                                   | Fuel => Fuel
-                                   end
-                               end
-                             else
-                               match lit_get (f_name fd) fs with
-                               | Some node =>
-                                   match coerce_lit f vars (f_type fd) node with
-                                   | Good y => cont (Some y)
-                                   | Invalid => Invalid
-                                   | Crash => Crash
-                                   | Fuel => Fuel
-                                   end
-                               | None => Crash (* unreachable *)
-                               end
-                         end) fds
-                    with
-                    | Good kvs =>
-                        if oneof && negb (oneof_lit_ok fs kvs) then Invalid else Good (PDict kvs)
-                    | Invalid => Invalid
-                    | Crash => Crash
-                    | Fuel => Fuel
-                    end
+                | LObject fs => coerce_obj_lit (coerce_lit f vars) (coerce_lit f []) vars oneof fds fs
                 | _ => Invalid
                 end
             | Some d => leaf_lit d l
@@ -315,19 +347,29 @@ Section Oracles.
       end
     end.
 
-  (* coerce_default_value of a field/variable default given as a literal *)
-  Definition coerce_default (fuel : nat) (t : ityp) (dl : lit) : result pyval :=
-    match coerce_lit fuel [] t dl with
-    | Invalid => Crash
-    | r => r
-    end.
-
   (* ---------------------------------------------------------------- coerce_input_value *)
 
   Definition oneof_val_ok (kvs : list (text * pyval)) (coerced : list (text * pyval)) : bool :=
     match defined_entries kvs, coerced with
     | [_], [(_, y)] => negb (is_none y)
     | _, _ => false
+    end.
+
+  Definition val_step (c : ityp -> pyval -> result pyval) (cd : ityp -> lit -> result pyval)
+      (kvs : list (text * pyval)) (fd : field) : result (option pyval) :=
+    let fv := dget (f_name fd) kvs in
+    if is_undef fv then
+      if required fd then Invalid else default_step cd fd
+    else rmap Some (c (f_type fd) fv).
+
+  Definition coerce_obj_val (c : ityp -> pyval -> result pyval) (cd : ityp -> lit -> result pyval)
+      (oneof : bool) (fds : list field) (kvs : list (text * pyval)) : result pyval :=
+    if has_unknown fds kvs then Invalid else
+    match seq_fields (val_step c cd kvs) fds with
+    | Good out => if oneof && negb (oneof_val_ok kvs out) then Invalid else Good (PDict out)
+    | Invalid => Invalid
+    | Crash => Crash
+    | Fuel => Fuel
     end.
 
   Fixpoint coerce_val (fuel : nat) (t : ityp) (v : pyval) {struct fuel} : result pyval :=
@@ -339,24 +381,8 @@ Section Oracles.
       | TList it =>
           if is_null v then Good PNone else
           match v with
-          | PList items =>
-              (fix go (items : list pyval) : result pyval :=
-                 match items with
-                 | [] => Good (PList [])
-                 | x :: r =>
-                     match coerce_val f it x with
-                     | Good y => match go r with
-                                 | Good (PList ys) => Good (PList (y :: ys))
-                                 | e => e
-                                 end
-                     | e => e
-                     end
-                 end) items
-          | _ =>
-              match coerce_val f it v with
-              | Good y => Good (PList [y])
-              | e => e
-              end
+          | PList items => rmap PList (seq_list (coerce_val f it) items)
+          | _ => rmap (fun y => PList [y]) (coerce_val f it v)
           end
       | TNamed n =>
           if is_null v then Good PNone else
@@ -364,49 +390,7 @@ Section Oracles.
           | None => Crash
           | Some (DInput oneof fds) =>
               match v with
-              | PDict kvs =>
-                  if has_unknown fds kvs then Invalid else
-                  match
-                    (fix go (fds : list field) : result (list (text * pyval)) :=
-                       match fds with
-                       | [] => Good []
-                       | fd :: r =>
-                           let cont (o : option pyval) :=
-                             match go r with
-                             | Good out => Good (match o with
-                                                 | Some y => (f_name fd, y) :: out
-                                                 | None => out
-                                                 end)
-                             | e => e
-                             end in
-                           let fv := dget (f_name fd) kvs in
-                           if is_undef fv then
-                             if required fd then Invalid else
-                             match f_default fd with
-                             | None => cont None
-                             | Some dl =>
-                                 match coerce_lit f [] (f_type fd) dl with
-                                 | Good y => cont (Some y)
-                                 | Invalid => Crash
-                                 | Crash => Crash
-                                 | Fuel => Fuel
-                                 end
-                             end
-                           else
-                             match coerce_val f (f_type fd) fv with
-                             | Good y => cont (Some y)
-                             | Invalid => Invalid
-                             | Crash => Crash
-                             | Fuel => Fuel
-                             end
-                       end) fds
-                  with
-                  | Good out =>
-                      if oneof && negb (oneof_val_ok kvs out) then Invalid else Good (PDict out)
-                  | Invalid => Invalid
-                  | Crash => Crash
-                  | Fuel => Fuel
-                  end
+              | PDict kvs => coerce_obj_val (coerce_val f) (coerce_lit f []) oneof fds kvs
               | _ => Invalid
               end
           | Some d => leaf_val d v
@@ -415,14 +399,6 @@ Section Oracles.
     end.
 
   (* ---------------------------------------------------------------- validate_input_value_impl *)
-
-  Definition oapp {A} (a b : option (list A)) : option (list A) :=
-    match a, b with
-    | Some x, Some y => Some (x ++ y)
-    | _, _ => None
-    end.
-
-  Definition is_good {A} (r : result A) : bool := match r with Good _ => true | _ => false end.
 
   (* names of the provided entries that are declared fields, in dict order *)
   Definition known_entries (fds : list field) (kvs : list (text * pyval)) : list text :=
@@ -436,6 +412,20 @@ Section Oracles.
     | [] => []
     end.
 
+  Definition unknown_val_errs (p : path) (fds : list field) (kvs : list (text * pyval)) : list path :=
+    map (fun _ => p) (filter (fun kv => negb (known (fst kv) fds)) (defined_entries kvs)).
+
+  Definition vval_step (vv : ityp -> pyval -> path -> option (list path))
+      (kvs : list (text * pyval)) (p : path) (fd : field) : option (list path) :=
+    let fv := dget (f_name fd) kvs in
+    if is_undef fv then Some (if required fd then [p] else [])
+    else vv (f_type fd) fv (p ++ [PName (f_name fd)]).
+
+  Definition validate_obj_val (vv : ityp -> pyval -> path -> option (list path))
+      (oneof : bool) (fds : list field) (kvs : list (text * pyval)) (p : path) : option (list path) :=
+    oapp (vfields (vval_step vv kvs p) fds)
+         (Some (unknown_val_errs p fds kvs ++ (if oneof then oneof_val_errs p fds kvs else []))).
+
   Fixpoint validate_val (fuel : nat) (t : ityp) (v : pyval) (p : path) {struct fuel}
     : option (list path) :=
     match fuel with
@@ -446,12 +436,7 @@ Section Oracles.
       | TList it =>
           if is_null v then Some [] else
           match v with
-          | PList items =>
-              (fix go (i : nat) (items : list pyval) : option (list path) :=
-                 match items with
-                 | [] => Some []
-                 | x :: r => oapp (validate_val f it x (p ++ [PIdx i])) (go (S i) r)
-                 end) O items
+          | PList items => vseq (fun i x => validate_val f it x (p ++ [PIdx i])) O items
           | _ => validate_val f it v p
           end
       | TNamed n =>
@@ -460,20 +445,7 @@ Section Oracles.
           | None => Some []                       (* not an input type: nothing is reported *)
           | Some (DInput oneof fds) =>
               match v with
-              | PDict kvs =>
-                  oapp
-                    ((fix go (fds' : list field) : option (list path) :=
-                        match fds' with
-                        | [] => Some []
-                        | fd :: r =>
-                            let fv := dget (f_name fd) kvs in
-                            oapp (if is_undef fv then Some (if required fd then [p] else [])
-                                  else validate_val f (f_type fd) fv (p ++ [PName (f_name fd)]))
-                                 (go r)
-                        end) fds)
-                    (Some (map (fun _ => p)
-                              (filter (fun kv => negb (known (fst kv) fds)) (defined_entries kvs))
-                           ++ (if oneof then oneof_val_errs p fds kvs else [])))
+              | PDict kvs => validate_obj_val (validate_val f) oneof fds kvs p
               | _ => Some [p]
               end
           | Some d => Some (if is_good (leaf_val d v) then [] else [p])
@@ -482,6 +454,38 @@ Section Oracles.
     end.
 
   (* ---------------------------------------------------------------- validate_input_literal_impl *)
+
+  Definition unknown_lit_errs (p : path) (fds : list field) (fs : list (text * lit)) : list path :=
+    map (fun _ => p) (filter (fun kl => negb (known (fst kl) fds)) fs).
+
+  Definition oneof_lit_errs (p : path) (fds : list field) (fs : list (text * lit)) : list path :=
+    match filter (fun kl => known (fst kl) fds) fs with
+    | [(k, node)] => if is_lnull node then [p ++ [PName k]] else []
+    | _ => [p]
+    end.
+
+  Definition vlit_step (vl : ityp -> lit -> path -> option (list path)) (static : bool) (vars : env)
+      (oneof : bool) (fs : list (text * lit)) (p : path) (fd : field) : option (list path) :=
+    match lit_get (f_name fd) fs with
+    | None => Some (if required fd then [p] else [])
+    | Some node =>
+        let sub := vl (f_type fd) node (p ++ [PName (f_name fd)]) in
+        match node with
+        | LVar vn =>
+            if static then sub else
+            let v := lookup_var vn vars in
+            if oneof then oapp (Some (if is_null v then [p] else [])) sub
+            else if is_undef v && negb (required fd) then Some []
+            else sub
+        | _ => sub
+        end
+    end.
+
+  Definition validate_obj_lit (vl : ityp -> lit -> path -> option (list path)) (static : bool)
+      (vars : env) (oneof : bool) (fds : list field) (fs : list (text * lit)) (p : path)
+      : option (list path) :=
+    oapp (vfields (vlit_step vl static vars oneof fs p) fds)
+         (Some (unknown_lit_errs p fds fs ++ (if oneof then oneof_lit_errs p fds fs else []))).
 
   (* static = no variable values given (the validation rule); then variables are not judged *)
   Fixpoint validate_lit (fuel : nat) (static : bool) (vars : env) (t : ityp) (l : lit) (p : path)
@@ -499,12 +503,7 @@ Section Oracles.
         | TList it =>
             if is_lnull l then Some [] else
             match l with
-            | LList items =>
-                (fix go (i : nat) (items : list lit) : option (list path) :=
-                   match items with
-                   | [] => Some []
-                   | x :: r => oapp (validate_lit f static vars it x (p ++ [PIdx i])) (go (S i) r)
-                   end) O items
+            | LList items => vseq (fun i x => validate_lit f static vars it x (p ++ [PIdx i])) O items
             | _ => validate_lit f static vars it l p
             end
         | TNamed n =>
@@ -513,39 +512,7 @@ Section Oracles.
             | None => Some []
             | Some (DInput oneof fds) =>
                 match l with
-                | LObject fs =>
-                    let known_nodes := filter (fun kl => known (fst kl) fds) fs in
-                    oapp
-                      ((fix go (fds' : list field) : option (list path) :=
-                          match fds' with
-                          | [] => Some []
-                          | fd :: r =>
-                              oapp
-                                (match lit_get (f_name fd) fs with
-                                 | None => Some (if required fd then [p] else [])
-                                 | Some node =>
-                                     let sub := validate_lit f static vars (f_type fd) node
-                                                  (p ++ [PName (f_name fd)]) in
-                                     match node with
-                                     | LVar vn =>
-                                         if static then sub else
-                                         let v := lookup_var vn vars in
-                                         if oneof then
-                                           oapp (Some (if is_null v then [p] else [])) sub
-                                         else if is_undef v && negb (required fd) then Some []
-                                         else sub
-                                     | _ => sub
-                                     end
-                                 end)
-                                (go r)
-                          end) fds)
-                      (Some (map (fun _ => p) (filter (fun kl => negb (known (fst kl) fds)) fs)
-                             ++ (if oneof then
-                                   match known_nodes with
-                                   | [(k, node)] => if is_lnull node then [p ++ [PName k]] else []
-                                   | _ => [p]
-                                   end
-                                 else [])))
+                | LObject fs => validate_obj_lit (validate_lit f static vars) static vars oneof fds fs p
                 | _ => Some [p]
                 end
             | Some d => Some (if is_good (leaf_lit d l) then [] else [p])
@@ -628,6 +595,31 @@ Section Oracles.
     | _ => Invalid
     end.
 
+  Definition tolit_add (fd : field) (o : option lit) (out : list (text * lit)) :=
+    match o with
+    | Some y => (f_name fd, y) :: out
+    | None => out
+    end.
+
+  Fixpoint seq_lit_fields (step : field -> result (option lit)) (fds : list field)
+    : result (list (text * lit)) :=
+    match fds with
+    | [] => Good []
+    | fd :: r =>
+        match step fd with
+        | Good o => rmap (tolit_add fd o) (seq_lit_fields step r)
+        | Invalid => Invalid
+        | Crash => Crash
+        | Fuel => Fuel
+        end
+    end.
+
+  Definition tolit_step (tl : ityp -> pyval -> result lit) (kvs : list (text * pyval)) (fd : field)
+    : result (option lit) :=
+    let fv := dget (f_name fd) kvs in
+    if is_undef fv then (if required fd then Invalid else Good None)
+    else rmap Some (tl (f_type fd) fv).
+
   Fixpoint to_literal (fuel : nat) (t : ityp) (v : pyval) {struct fuel} : result lit :=
     match fuel with
     | O => Fuel
@@ -637,19 +629,7 @@ Section Oracles.
       | TList it =>
           if is_null v then Good LNull else
           match v with
-          | PList items =>
-              (fix go (items : list pyval) : result lit :=
-                 match items with
-                 | [] => Good (LList [])
-                 | x :: r =>
-                     match to_literal f it x with
-                     | Good y => match go r with
-                                 | Good (LList ys) => Good (LList (y :: ys))
-                                 | e => e
-                                 end
-                     | e => e
-                     end
-                 end) items
+          | PList items => rmap LList (seq_list (to_literal f it) items)
           | _ => to_literal f it v
           end
       | TNamed n =>
@@ -659,32 +639,8 @@ Section Oracles.
           | Some (DInput _ fds) =>
               match v with
               | PDict kvs =>
-                  if has_unknown fds kvs then Invalid else
-                  match
-                    (fix go (fds : list field) : result (list (text * lit)) :=
-                       match fds with
-                       | [] => Good []
-                       | fd :: r =>
-                           let fv := dget (f_name fd) kvs in
-                           if is_undef fv then
-                             if required fd then Invalid else go r
-                           else
-                             match to_literal f (f_type fd) fv with
-                             | Good y => match go r with
-                                         | Good out => Good ((f_name fd, y) :: out)
-                                         | e => e
-                                         end
-                             | Invalid => Invalid
-                             | Crash => Crash
-                             | Fuel => Fuel
-                             end
-                       end) fds
-                  with
-                  | Good out => Good (LObject out)
-                  | Invalid => Invalid
-                  | Crash => Crash
-                  | Fuel => Fuel
-                  end
+                  if has_unknown fds kvs then Invalid
+                  else rmap LObject (seq_lit_fields (tolit_step (to_literal f) kvs) fds)
               | _ => Invalid
               end
           | Some (DScalar sc) => scalar_to_literal sc v
